@@ -484,6 +484,7 @@ func runProg(id, spec string, actions []string) {
 		}()
 		p.run(actions)
 	}()
+	fmt.Fprintf(out, "ACTS\t%s\n", strings.Join(p.acts, " "))
 	fmt.Fprintf(out, "END\t%s\tprog=%d\n", id, len(p.acts))
 	totals.progs++
 	totals.nfail += p.nfail
